@@ -207,6 +207,75 @@ def run(rep, drv):
 		if ok_py != ok_model:
 			bad('probability-vectors', 'probabilities %s: %s by the code, %s by the documented rule (sums to one within rounding)' % (pv, 'accepted' if ok_py else 'rejected', 'accepted' if ok_model else 'rejected'), case)
 
+	# ---- one object through a history of attribute changes == a fresh object with the same attributes ----
+	need = {'N': ('mean', 'standard_deviation'), 'P': ('mean',), 'UD': ('lo', 'hi'), 'UC': ('lo', 'hi'), 'NB': ('n', 'p'), 'D': ('demand_list',), 'CD': ('demand_list', 'probabilities')}
+	def kwargs_of(spec):
+		ty = spec['type']
+		if ty == 'N': return {'mean': float(F(spec['mean'])), 'standard_deviation': float(F(spec['sd']))}
+		if ty == 'P': return {'mean': float(F(spec['mean']))}
+		if ty in ('UD', 'UC'): return {'lo': int(F(spec['lo'])), 'hi': int(F(spec['hi']))}
+		if ty == 'NB': return {'n': int(F(spec['n'])), 'p': float(F(spec['p']))}
+		if ty == 'D': return {'demand_list': [int(F(x)) for x in spec['list']] if isinstance(spec['list'], list) else int(F(spec['list']))}
+		return {'demand_list': [int(F(x)) for x in spec['vals']], 'probabilities': [float(F(x)) for x in spec['probs']]}
+	def observe(ds, u):
+		out = {}
+		def q(name, f):
+			try:
+				with warnings.catch_warnings():
+					warnings.simplefilter('ignore')
+					v = f()
+				out[name] = v
+			except Exception as e:
+				out[name] = 'error:' + err_enum(e)
+		q('mean', lambda: float(ds.mean)); q('sd', lambda: float(ds.standard_deviation))
+		for x in (1.5, 3.5, 6, 11.25):
+			q('cdf(%s)' % x, lambda: float(ds.cdf(x)))
+		q('dist.support', lambda: tuple(float(v) for v in ds.demand_distribution.support()))
+		q('dist.mean', lambda: float(ds.demand_distribution.mean())); q('dist.std', lambda: float(ds.demand_distribution.std()))
+		q('dist.cdf(3.5)', lambda: float(ds.demand_distribution.cdf(3.5)))
+		q('ltd(2).mean', lambda: float(ds.lead_time_demand_distribution(2).mean())); q('ltd(1).cdf(3.5)', lambda: float(ds.lead_time_demand_distribution(1).cdf(3.5)))
+		with Stub() as st:
+			st.value = u
+			q('generate_demand(4)', lambda: float(ds.generate_demand(4)))
+			out['sampler'] = str([(c[0], [float(a) if np.isscalar(a) else [float(z) for z in a] for a in c[1]]) for c in st.calls])
+		return out
+	for k in range(N // 4):
+		attrs = {}
+		hist = None
+		steps = []
+		for step in range(rng.randint(2, 6)):
+			avail = [t for t in need if all(a in attrs for a in need[t]) and t != attrs.get('type')]
+			if hist is not None and avail and rng.random() < .5:
+				# "D" and "CD" share demand_list; UD/UC share (lo, hi); N/P share mean: switch the type only
+				change = {'type': rng.choice(avail)}
+			else:
+				_, spec, _ = gen_ds(rng)
+				change = dict(kwargs_of(spec)); change['type'] = spec['type']
+			attrs.update(change)
+			steps.append({k2: (v if not isinstance(v, float) else fr(v)) for k2, v in change.items()})
+			try:
+				with warnings.catch_warnings():
+					warnings.simplefilter('ignore')
+					if hist is None:
+						hist = DemandSource(**attrs)
+					else:
+						for a, v in change.items():
+							if a != 'type': setattr(hist, a, v)
+						if 'type' in change: hist.type = change['type']
+					fresh = DemandSource(**attrs)
+			except Exception as e:
+				break
+			u = rng.choice([0, 2, 3.25, 7])
+			oh = observe(hist, u); of = observe(fresh, u)
+			case = {'history': list(steps), 'u': fr(u)}
+			rep.case('attribute-history', case, nontrivial=len(steps) > 1); rep.count('history:type=' + attrs['type'])
+			rep.exact_cmp += len(oh)
+			d = [(k2, oh[k2], of[k2]) for k2 in oh if not (oh[k2] == of[k2] or (isinstance(oh[k2], float) and isinstance(of[k2], float) and (close(oh[k2], of[k2], 1e-12) or (oh[k2] != oh[k2] and of[k2] != of[k2]))))]
+			if d:
+				bad('attribute-history', 'after the attribute changes %s the object reports %s but a fresh DemandSource with the same attributes reports %s' % (
+					steps, {a: b for a, b, _ in d[:4]}, {a: c for a, _, c in d[:4]}), case, py={'history_object': str(oh)[:600], 'fresh_object': str(of)[:600]})
+				break
+
 	# ---- disruption processes ---------------------------------------------
 	for k in range(N // 2):
 		a = rng.choice([0.05, 0.1, 0.3, 0.5]); b = rng.choice([0.2, 0.5, 0.9])
